@@ -379,5 +379,39 @@ pub fn record(args: &Args) {
             }
         }
     }
+    // large games (sizes that cross thresholds an implementation might special-case): result of k threads against one
+    // thread only, no event trace
+    for (gi, (name, t)) in zoo::large().iter().enumerate() {
+        let mut tg = t.clone();
+        cfr::label_chance(&mut tg);
+        generic_payoffs(&mut tg, &mut rng);
+        for (mi, meth) in METHODS.iter().enumerate() {
+            if only.map_or(false, |o| o != *meth) {
+                continue;
+            }
+            let preset = PARAM_SETS[(gi + mi + seed as usize) % 5];
+            let sd = seed.wrapping_mul(131).wrapping_add(gi as u64);
+            let iters = 4;
+            let Ok(one) = thresholded(&tg, meth, preset, 1, iters, 0.0, sd) else { continue };
+            for &k in if thorough { &[2usize, 3, 4, 5, 7, 16][..] } else { &[2usize, 3, 4][..] } {
+                match thresholded(&tg, meth, preset, k, iters, 0.0, sd) {
+                    Err(msg) => cmp.line(&json!({"status": "violation", "game": name, "method": meth, "k": k, "T": iters,
+                        "mismatch": [{"class": "panic", "what": "solve failed or panicked with several threads (large game)", "observed": msg}]})),
+                    Ok((_, dense, bounds)) => {
+                        runs += 1;
+                        let d = max_diff(&dense, &one.1);
+                        let db = (0..2).map(|p| (bounds[p] - one.2[p]).abs() / one.2[p].abs().max(1.0)).fold(0.0, f64::max);
+                        if d > 1e-9 || db > 1e-9 || d.is_nan() || db.is_nan() {
+                            cmp.line(&json!({"status": "violation", "game": name, "method": meth, "preset": preset, "k": k, "T": iters,
+                                "mismatch": [{"class": "differs", "what": "result with several threads differs from one thread (large game)",
+                                    "max_probability_difference": d, "max_bound_difference": db}], "seed": sd}));
+                        } else {
+                            cmp.line(&json!({"status": "ok", "game": name, "method": meth, "k": k, "T": iters, "nontrivial": true}));
+                        }
+                    }
+                }
+            }
+        }
+    }
     println!("{}", json!({"runs": runs, "nontrivial_cuts": nontrivial, "passes": passes_total, "games": games.len()}));
 }
